@@ -173,10 +173,14 @@ func (c *checker) checkStarted(s *server, e *sim.Ev) {
 	}
 	if si, stt := e.E, e.F; si > 0 && !ownRestore {
 		c.cov("restart-snapshot-position-checked")
-		if en, ok := d.logs[si]; ok && en.T != stt {
+		// the committed history decides; the server's own log entry at that index only when nothing
+		// is known committed there (it can be a stale entry lying under an installed snapshot, S3a)
+		if g := c.G[si]; g != nil {
+			if g.term != stt {
+				c.violate("C10", "restart-wrong-snapshot-term", e.Seq, "%s restarted with snapshot position (%d, term %d) but the committed entry %d has term %d", key, si, stt, si, g.term)
+			}
+		} else if en, ok := d.logs[si]; ok && en.T != stt {
 			c.violate("C10", "restart-wrong-snapshot-term", e.Seq, "%s restarted with snapshot position (%d, term %d) but its own log holds term %d at that index", key, si, stt, en.T)
-		} else if g := c.G[si]; !ok && g != nil && g.term != stt {
-			c.violate("C10", "restart-wrong-snapshot-term", e.Seq, "%s restarted with snapshot position (%d, term %d) but the committed entry %d has term %d", key, si, stt, si, g.term)
 		}
 	}
 	// compared with the image the incarnation was created from (frozen at Lstart)
